@@ -110,15 +110,32 @@ def run_program(prog, chooser, lines=False, policy=()):
                 return "ignored"
             return cb
 
+        shared = {}
+
+        def shared_cb(tidx):
+            # one function object and one extra object reused by every "same" registration of a thread
+            if tidx not in shared:
+                cell = {"rid": None}
+
+                def cb(result, exception, extra):
+                    sched.emit("cb-call", reg=("same", tidx), args=(result, exception, extra))
+                shared[tidx] = (cb, ("extra-shared", tidx), cell)
+            return shared[tidx]
+
         def other_thread(tidx, ops):
             for oidx, op in enumerate(ops):
                 rid = (tidx, oidx)
                 if op[0] == "cb":
-                    extra = ("extra", rid)
+                    if op[1] == "same":
+                        cb_obj, extra, cell = shared_cb(tidx)
+                        cell["rid"] = rid
+                    else:
+                        extra = ("extra", rid)
+                        cb_obj = make_cb(rid, op[1])
                     state["objs"][rid] = extra
                     sched.emit("reg-begin", reg=rid, ckind=op[1])
                     try:
-                        fut.set_callback(make_cb(rid, op[1]), extra)
+                        fut.set_callback(cb_obj, extra)
                         sched.emit("reg-end", reg=rid, raised=None)
                     except Exception as ex:
                         sched.emit("reg-end", reg=rid, raised=ex)
@@ -233,6 +250,7 @@ def analyse(prog, sched, state, error):
 
     # -- callbacks
     regs = {}
+    shared_calls = {}
     for i, (step, kind, data) in enumerate(ev):
         if kind == "reg-begin":
             regs[data["reg"]] = {"begin": i, "end": None, "kind": data["ckind"], "calls": []}
@@ -241,16 +259,46 @@ def analyse(prog, sched, state, error):
             if data["raised"] is not None:
                 fail("C16/callback-not-contained", "set_callback raised %r" % (data["raised"],), summarize(ev))
         elif kind == "cb-call":
-            regs[data["reg"]]["calls"].append((i, data["args"]))
+            if data["reg"][0] == "same":
+                shared_calls.setdefault(data["reg"][1], []).append((i, data["args"]))
+            else:
+                regs[data["reg"]]["calls"].append((i, data["args"]))
     nontrivial = False
     classes = []
+    all_regs = dict(regs)
+    # registrations re-using one (callback, extra) pair: calls cannot be attributed to a
+    # registration by object identity, only by the window of a registration made after completion
+    for rid, r in list(regs.items()):
+        if r["kind"] != "same":
+            continue
+        if r["end"] is None:
+            fail("C16/no-progress", "set_callback never returned")
+        calls = shared_calls.get(rid[0], [])
+        n_same = sum(1 for qid, q in all_regs.items() if q["kind"] == "same" and qid[0] == rid[0])
+        if len(calls) > n_same:
+            fail("C16/callback-twice", "a callback object registered %d times was invoked %d times" % (n_same, len(calls)), summarize(ev))
+        for ci, args in calls:
+            if ci < body_end:
+                fail("C16/callback-before-finished", "callback invoked before the task body ended", summarize(ev))
+            res, exc, extra = args
+            if res is not exp_val or exc is not exp_exc or extra is not state["objs"][rid]:
+                fail("C16/callback-arguments", "callback got (%r, %r, %r)" % (res, exc, extra), summarize(ev))
+        racing = any(oid != rid and not (o["end"] < r["begin"] or o["begin"] > r["end"]) for oid, o in all_regs.items())
+        if r["begin"] > exec_ret and not racing:
+            inside = [ci for ci, _ in calls if r["begin"] < ci < r["end"]]
+            if len(inside) != 1:
+                fail("C16/callback-missed" if not inside else "C16/callback-twice",
+                     "registration %r made after completion with an already used (callback, extra) pair was invoked %d times" % (rid, len(inside)), summarize(ev))
+            classes.append("re-registration-of-same-pair")
+        del regs[rid]
+    all_regs.update(regs)
     for rid, r in regs.items():
         if r["end"] is None:
             fail("C16/no-progress", "set_callback never returned")
         if len(r["calls"]) > 1:
             fail("C16/callback-twice", "registration %r invoked %d times" % (rid, len(r["calls"])), summarize(ev))
         clean = True
-        for oid, o in regs.items():
+        for oid, o in all_regs.items():
             if oid == rid:
                 continue
             if o["end"] < r["begin"] or o["begin"] > max(r["end"], exec_ret):
@@ -307,6 +355,8 @@ MICRO = [
     {"task": "gated-ret", "threads": [[("result", 0.5), ("cb", "ok"), ("result", None)]], "exec_first": True},
     {"task": "gated-raise", "threads": [[("cb", "ok")], [("result", 1.0), ("done",)]], "exec_first": True},
     {"task": "ret", "threads": [[("cb", "ok")], [("cb", "ok")]], "exec_first": True},
+    {"task": "ret", "threads": [[("cb", "same"), ("result", None), ("cb", "same"), ("cb", "same")]], "exec_first": True},
+    {"task": "raise", "threads": [[("cb", "same"), ("cb", "same")]], "exec_first": False},
 ]
 
 
@@ -358,7 +408,7 @@ def dfs_oracle(case):
 
 
 ops = st.one_of(
-    st.tuples(st.just("cb"), st.sampled_from(["ok", "ok", "raise", "arity"])),
+    st.tuples(st.just("cb"), st.sampled_from(["ok", "ok", "raise", "arity", "same", "same"])),
     st.just(("done",)),
     st.tuples(st.just("result"), st.sampled_from([None, 0.5, 2.0])),
 )
